@@ -60,26 +60,30 @@ def run(ctx):
     for k, (n, rho, r0, a, b, nswp) in enumerate(confs):
         for s in range(nseeds):
             seed = 100 + 17 * k + s + ctx.seed
-            pair = {}
-            for cache in (False, True):
-                tr, info, nc, Y = R.record(n, rho, r0, a, b, nswp, cache, seed=seed, return_Y=True)
-                pair[cache] = (tr, info, Y)
-                trs.append(tr)
-                trs.append(R.record(n, rho, r0, a, b, nswp, cache, seed=seed, vld=True, e_vld=1e-9)[0])
-                trs.append(R.record(n, rho, r0, a, b, 12, cache, seed=seed, e=1e-6, m=20000)[0])
-            (t0, i0, Y0), (t1, i1, Y1) = pair[False], pair[True]
-            same = len(Y0) == len(Y1) and all(a_.shape == b_.shape and np.array_equal(a_, b_) for a_, b_ in zip(Y0, Y1))
-            ctx.case(key=('pair', n, rho, r0, a, b, nswp, seed), nontrivial=True,
-                     sample={'pair': {'n': n, 'rho': rho, 'r0': r0, 'dr': [a, b], 'nswp': nswp},
-                             'm_plain': i0['m'], 'm_cached': i1['m'], 'm_cache': i1['m_cache']})
-            ctx.check(same and i0['nswp'] == i1['nswp'] and i0['stop'] == i1['stop'], 'cross:cache-transparency',
-                      'cache changes the result: cores equal=%s nswp %s/%s stop %s/%s (cfg %s seed %d)'
-                      % (same, i0['nswp'], i1['nswp'], i0['stop'], i1['stop'], (n, rho, r0, a, b, nswp), seed),
-                      case={'cfg': [n, rho, r0, a, b, nswp], 'seed': seed})
-            ctx.check(i1['m'] <= i0['m'] and i1['m'] + i1['m_cache'] == i0['m'], 'cross:cache-counts',
-                      'cache counters: m_cached=%d m_cache=%d m_plain=%d (cfg %s seed %d)'
-                      % (i1['m'], i1['m_cache'], i0['m'], (n, rho, r0, a, b, nswp), seed),
-                      case={'cfg': [n, rho, r0, a, b, nswp], 'seed': seed})
+            for ydtype in (None, ['float32', 'int64', 'float16', 'int32'][(k + s) % 4]):
+                pair = {}
+                for cache in (False, True):
+                    tr, info, nc, Y = R.record(n, rho, r0, a, b, nswp, cache, seed=seed, return_Y=True, ydtype=ydtype)
+                    pair[cache] = (tr, info, Y)
+                    trs.append(tr)
+                    if ydtype is None:
+                        trs.append(R.record(n, rho, r0, a, b, nswp, cache, seed=seed, vld=True, e_vld=1e-9)[0])
+                        trs.append(R.record(n, rho, r0, a, b, 12, cache, seed=seed, e=1e-6, m=20000)[0])
+                (t0, i0, Y0), (t1, i1, Y1) = pair[False], pair[True]
+                if Y0 is None or Y1 is None:
+                    continue
+                same = len(Y0) == len(Y1) and all(a_.shape == b_.shape and np.array_equal(a_, b_) for a_, b_ in zip(Y0, Y1))
+                ctx.case(key=('pair', n, rho, r0, a, b, nswp, seed, ydtype), nontrivial=True,
+                         sample={'pair': {'n': n, 'rho': rho, 'r0': r0, 'dr': [a, b], 'nswp': nswp},
+                                 'm_plain': i0['m'], 'm_cached': i1['m'], 'm_cache': i1['m_cache']})
+                ctx.check(same and i0['nswp'] == i1['nswp'] and i0['stop'] == i1['stop'], 'cross:cache-transparency',
+                          'cache changes the result: cores equal=%s nswp %s/%s stop %s/%s (cfg %s seed %d)'
+                          % (same, i0['nswp'], i1['nswp'], i0['stop'], i1['stop'], (n, rho, r0, a, b, nswp), seed),
+                          case={'cfg': [n, rho, r0, a, b, nswp], 'seed': seed})
+                ctx.check(i1['m'] <= i0['m'] and i1['m'] + i1['m_cache'] == i0['m'], 'cross:cache-counts',
+                          'cache counters: m_cached=%d m_cache=%d m_plain=%d (cfg %s seed %d)'
+                          % (i1['m'], i1['m_cache'], i0['m'], (n, rho, r0, a, b, nswp), seed),
+                          case={'cfg': [n, rho, r0, a, b, nswp], 'seed': seed})
     # fault suites with validation data / preloaded dictionaries
     fs = R.BASE_CONFIGS[:2] if ctx.tier == 'quick' else R.BASE_CONFIGS
     for k, (n, rho, r0, a, b, nswp) in enumerate(fs):
@@ -91,7 +95,7 @@ def run(ctx):
     for t in trs:
         # how many traces carried an exactness obligation (non-vacuity)
         rr = t['ev'][-1]
-        if rr['stop'] in ('nswp', 'e', 'e_vld', 'cb', 'conv') and rr['acc_ok']:
+        if rr.get('stop') in ('nswp', 'e', 'e_vld', 'cb', 'conv') and rr.get('acc_ok'):
             npred += 1
     ctx.notes['traces_ending_exact'] = npred
     if npred == 0:
